@@ -232,13 +232,14 @@ func buildUniqueAttrs(args ...any) (kvps Attrs) {
 
 func argsToAttrs(kvps *Attrs, args ...any) { //nolint:revive
 	var key string
+	var pending bool // a key is waiting for its value (an empty string is a key too)
 	// if keysKnown == nil {
 	// keysKnown = make(map[string]bool)
 	for _, it := range args {
-		if key == "" {
+		if !pending {
 			switch k := it.(type) {
 			case string:
-				key = k
+				key, pending = k, true
 			case Attr:
 				*kvps = append(*kvps, k)
 				key = ""
@@ -258,7 +259,7 @@ func argsToAttrs(kvps *Attrs, args ...any) { //nolint:revive
 			}
 		} else {
 			*kvps = append(*kvps, NewAttr(key, it))
-			key = ""
+			key, pending = "", false
 		}
 	}
 	return
